@@ -53,7 +53,9 @@ theorem C12_all_pending_matching_resolved (ops : List Op) (h : Nat) (hd : Handli
       (¬ (w.fut = .pending ∧ w.m.matches hd.μ = true) → w'.fut = w.fut) := by
   have hi := inv_run ops
   have hrun : (run (ops ++ [.finish h])).ws = (run ops).ws.map (resolveW hd.μ h) := by
-    simp [run, List.foldl_append, step, hh, hnd, deliver_eq]
+    have : run (ops ++ [.finish h]) = step (run ops) (.finish h) := by simp [run, List.foldl_append]
+    rw [this]
+    simp only [step, hh, hnd, Bool.false_eq_true, if_false, deliver_eq]
   refine ⟨resolveW hd.μ h w, by rw [hrun]; simp [hk], ?_⟩
   have hiff := resolveW_hit_iff hi hk hd.μ
   constructor
@@ -88,7 +90,12 @@ theorem C12_finish_once (s : State) (h : Nat) : step (step s (.finish h)) (.fini
     have hlt : h < s.hs.length := (List.getElem?_eq_some_iff.mp hh).1
     by_cases hdn : hd.done = true
     · simp [step, hh, hdn]
-    · simp [step, hh, hdn, hlt]
+    · have hdf : hd.done = false := by simpa using hdn
+      have h1 : (step s (.finish h)).hs[h]? = some { hd with done := true } := by
+        simp only [step, hh, hdf, Bool.false_eq_true, if_false]
+        simp [hlt]
+      generalize step s (.finish h) = s1 at h1 ⊢
+      simp only [step, h1, if_true]
 
 /-- Every call record is the arrival of exactly that message on exactly that connection; its number is
 the number of messages that had arrived before. -/
